@@ -1,12 +1,16 @@
 // Harness for C16: typed headers write/parse and case-insensitive lookup of the current /repo tree.
 //   T <name hex> <value hex>     parse the value with the registered header, write, parse that, write
 //   CC <i[:delta]>...             CacheControl built through the API (i = model index), written, parsed back
+//   TM <name hex> <value hex>   as T, but parsed by the request parser out of a message (value not terminated)
 //   CL <n>   EN <C|T> <i>   CN <i>   EX <i>   HO <host hex> <port>   SV <token hex>...
 //   L <message hex> <name hex>... parse the request, look every name up in the raw header collection
 #include <pistache/http.h>
 #include <pistache/http_headers.h>
 
 #include <algorithm>
+
+#include <cstring>
+#include <memory>
 
 #include "pv_util.h"
 
@@ -82,6 +86,36 @@ static std::string handle(const std::string& line)
                 return "T err2 " + pv::hex(w1);
             }
             return "T ok " + pv::hex(w1) + " " + pv::hex(write(*h2));
+        }
+        if (t[0] == "TM" && t.size() == 3)
+        {
+            // as T, but the header is parsed where the library parses it: by the request parser, out of an
+            // exact-size buffer in which nothing terminates the value
+            std::string name = pv::unhex(t[1]), value = pv::unhex(t[2]);
+            auto through_message = [&](const std::string& v, std::string& written) -> int {
+                std::string msg = "GET / HTTP/1.1\r\n" + name + ": " + v + "\r\n\r\n";
+                std::unique_ptr<char[]> buf(new char[msg.size()]);
+                memcpy(buf.get(), msg.data(), msg.size());
+                RequestParser p(1 << 20);
+                p.feed(buf.get(), msg.size());
+                try
+                {
+                    if (p.parse() != Private::State::Done)
+                        return 2;
+                    written = write(*p.request.headers().get(name));
+                }
+                catch (const std::exception&)
+                {
+                    return 1;
+                }
+                return 0;
+            };
+            std::string w1, w2;
+            if (through_message(value, w1) != 0)
+                return "T err";
+            if (through_message(w1, w2) != 0)
+                return "T err2 " + pv::hex(w1);
+            return "T ok " + pv::hex(w1) + " " + pv::hex(w2);
         }
         if (t[0] == "CC")
         {
